@@ -179,8 +179,11 @@ def gridInt : Grid Int := fun _ _ _ => some (cellInt, 110)
 
 def env : Env Int := { F := fnsInt, one := 1, grid := gridInt, headI := 0, headJ := 0, ord := .INPUT }
 
+/-- depths 100, 110, 120 for layers 0, 1, 2: the depths the example connections carry -/
+def gridLayered : Grid Int := fun _ _ k => some (cellInt, 100 + 10 * k)
+
 /-- the same well under COMPORD TRACK and DEPTH -/
-def envTrack : Env Int := { env with ord := .TRACK }
+def envTrack : Env Int := { env with ord := .TRACK, grid := gridLayered }
 def envDepth : Env Int := { env with ord := .DEPTH }
 
 /-- a history without COMPDAT -/
